@@ -209,7 +209,7 @@ func init() {
 				if idx%16 != shard || idx < resume || r.Cap != "" {
 					return
 				}
-				if !c.Deadline.IsZero() && time.Now().After(c.Deadline) {
+				if c.Expired() {
 					r.Exhaustive, r.Cap = false, fmt.Sprintf("time budget (stopped at input #%d)", idx)
 					return
 				}
